@@ -190,13 +190,17 @@ def canon_split(code):
             j += 1
         k = j
         ids = []
-        while k < n and _is_name(code[k]) and code[k] not in vlex.KW:
+        while k < n and (_is_name(code[k]) or re.fullmatch(r"[0-9a-z_]+", code[k])) and code[k] not in vlex.KW:
+            # (VSG reads `34pll` as one word; the lexer yields `34`,`pll`: glue them back)
+            if re.fullmatch(r"[0-9_]+", code[k]) and k + 1 < n and re.fullmatch(r"[a-z_][a-z0-9_]*", code[k + 1]) and code[k + 1] not in vlex.KW:
+                code = code[:k] + [code[k] + code[k + 1]] + code[k + 2 :]
+                n = len(code)
             ids.append(code[k])
             if k + 1 < n and code[k + 1] == ",":
                 k += 2
                 continue
             k += 1
-            if k < n and _is_name(code[k]) and code[k] not in vlex.KW:
+            if k < n and (_is_name(code[k]) or re.fullmatch(r"[0-9a-z_]+", code[k])) and code[k] not in vlex.KW:
                 continue  # `a b : t` (missing comma in the input): VSG reads two identifiers, so do we, on both sides
             break
         prev = out[-1] if out else None
@@ -256,7 +260,7 @@ def align(cb, ca, K=14, W=8):
             continue
         found = None
         for k in range(1, K + 1):
-            for w in (W, 5, 3, 2, 1) if k == 1 else ((W, 5, 3) if k <= 3 else (W,)):
+            for w in (W, 5, 3) if k <= 3 else (W,):
                 if j + k <= m and _match(cb, i, ca, j + k, w):
                     found = ("insert", 0, k)
                     break
